@@ -9,7 +9,12 @@ import (
 	"github.com/hashicorp/consul/agent/consul/state"
 	"github.com/hashicorp/consul/agent/structs"
 	"github.com/hashicorp/consul/internal/verifharness/hx"
+	"github.com/hashicorp/consul/types"
 )
+
+// seedRNG only varies payload parts the implementation is documented to ignore (the node ID
+// carried by the delete verbs); it is re-seeded from the run seed in main.
+var seedRNG = hx.NewRNG(1)
 
 type storeT = *state.Store
 
@@ -207,18 +212,78 @@ func kvDrivers(k string) []drv {
 	}
 }
 
+// node IDs: none, two that the histories register, one that is never registered up front
+var nodeIDs = []string{"", "aaaaaaaa-1111-4111-8111-111111111111", "bbbbbbbb-2222-4222-8222-222222222222", "cccccccc-3333-4333-8333-333333333333"}
+
+func nodeContent(i int) (addr, id string) { return addrs[i%2], nodeIDs[(i/2)%4] }
+
+// nodeByID finds, through the public read API, the registration carrying a node ID.
+func nodeByID(st *state.Store, id string) (name string, e ent) {
+	if id == "" {
+		return "", ent{}
+	}
+	_, n, err := st.GetNodeID(types.NodeID(id), nil, "")
+	must(err)
+	if n == nil {
+		return "", ent{}
+	}
+	return n.Node, ent{true, n.CreateIndex, n.ModifyIndex, string(n.ID) + "/" + n.Address, ""}
+}
+
+// tagNodeID records how the ID carried by a node operation relates to the store.
+func tagNodeID(st *state.Store, n, id string) {
+	cur := readNode(n)(st)
+	owner, e := nodeByID(st, id)
+	switch {
+	case id == "":
+		run.Tag("nodeid:none")
+	case cur.present && strings.HasPrefix(cur.content, id+"/"):
+		run.Tag("nodeid:own")
+	case e.present && owner != n:
+		run.Tag("nodeid:of-another-registration")
+	case cur.present && strings.HasPrefix(cur.content, "/"):
+		run.Tag("nodeid:unknown-on-idless-node")
+	case cur.present:
+		run.Tag("nodeid:unknown-on-node-with-other-id")
+	default:
+		run.Tag("nodeid:unknown-on-absent-name")
+	}
+}
+
 func nodeDrivers(n string) []drv {
 	read := readNode(n)
-	set := func(i int) cmd { return txnCmd(tNodeSet(n, addrs[i%2])) }
-	del := func() cmd { return txnCmd(tNodeDel(n)) }
+	other := map[string]string{"n1": "n2", "n2": "n1"}[n]
+	set := func(i int) cmd { a, id := nodeContent(i); return txnCmd(tNodeSet(n, a, id)) }
+	del := func() cmd { return txnCmd(tNodeDel(n, hx.Pick(seedRNG, nodeIDs))) }
 	key := "node/" + n
+	// a second registration (often with an ID) and sometimes a Serf health check on the target:
+	// the material for foreign IDs, renames and name clashes
+	seed := func(g *gen) {
+		if g.r.Chance(70) {
+			g.exec(txnCmd(tNodeSet(other, addrs[g.r.Intn(2)], nodeIDs[g.r.Intn(3)])))
+			g.remember("node/"+other, readNode(other))
+		}
+		if read(g.ws.store()).present && g.r.Chance(30) {
+			run.Tag("node:serf-health-registered")
+			g.exec(txnCmd(tChkSet(n, "serfHealth", "", "ok")))
+		}
+	}
 	return []drv{
-		{typ: "nodeCas", key: key, read: read, set: set, del: del, contents: 2, cas: func(i int, c uint64) cmd {
-			return single(tNodeCas(n, addrs[i%2], c), entityCond(entSpec{typ: "nodeCas", rule: "set", cidx: c, read: read, idem: true,
-				want: func(ent) (string, string) { return addrs[i%2], "" }}))
+		{typ: "nodeCas", key: key, read: read, set: set, del: del, contents: 8, seed: seed, cas: func(i int, c uint64) cmd {
+			a, id := nodeContent(i)
+			return single(tNodeCas(n, a, id, c), entityCond(entSpec{typ: "nodeCas", rule: "set", cidx: c, read: read, idem: true,
+				want: func(ent) (string, string) { return id + "/" + a, "" },
+				createOf: func(st *state.Store) (uint64, bool) {
+					tagNodeID(st, n, id)
+					if owner, e := nodeByID(st, id); e.present && owner != n {
+						return e.create, true
+					}
+					return 0, false
+				}}))
 		}},
-		{typ: "nodeDeleteCas", key: key, read: read, set: set, del: del, contents: 2, cas: func(_ int, c uint64) cmd {
-			return single(tNodeDelCas(n, c), entityCond(entSpec{typ: "nodeDeleteCas", rule: "del", cidx: c, read: read, isDel: true}))
+		{typ: "nodeDeleteCas", key: key, read: read, set: set, del: del, contents: 8, seed: seed, cas: func(i int, c uint64) cmd {
+			_, id := nodeContent(i)
+			return single(tNodeDelCas(n, id, c), entityCond(entSpec{typ: "nodeDeleteCas", rule: "del", cidx: c, read: read, isDel: true}))
 		}},
 	}
 }
@@ -226,7 +291,7 @@ func nodeDrivers(n string) []drv {
 func ensureNode(n string) func(g *gen) {
 	return func(g *gen) {
 		if !readNode(n)(g.ws.store()).present || !readNode(n)(g.wf.store()).present {
-			g.exec(txnCmd(tNodeSet(n, addrs[0])))
+			g.exec(txnCmd(tNodeSet(n, addrs[0], nodeIDs[g.r.Intn(2)])))
 		}
 	}
 }
@@ -376,6 +441,7 @@ func allDrivers() []drv {
 	ds = append(ds, chkDrivers("n1", "c1", "")...)
 	ds = append(ds, chkDrivers("n1", "c2", "web")...)
 	ds = append(ds, chkDrivers("n2", "c1", "web")...)
+	ds = append(ds, chkDrivers("n2", "serfHealth", "")...)
 	ds = append(ds, cfgDrivers(structs.ServiceDefaults, "web")...)
 	ds = append(ds, cfgDrivers(structs.ServiceDefaults, "api")...)
 	ds = append(ds, cfgDrivers(structs.TCPRoute, "r1")...)
@@ -447,7 +513,8 @@ func storedEquals(d drv, i int, cur ent) bool {
 	case strings.HasPrefix(d.key, "kv/"):
 		return cur.content == fmt.Sprintf("%s/%d", kvVals[i%3], i/3)
 	case strings.HasPrefix(d.key, "node/"):
-		return cur.content == addrs[i%2]
+		a, id := nodeContent(i)
+		return cur.content == id+"/"+a
 	case strings.HasPrefix(d.key, "svc/"):
 		return cur.content == fmt.Sprint(ports[i%2])
 	case strings.HasPrefix(d.key, "chk/"):
